@@ -240,6 +240,24 @@ theorem DqOp.apply_length_le (size : Nat) (o : DqOp α) (l l' : List α) (hl : l
     · simp at h
     · simp only [Option.some.injEq] at h; subst h
       simp only [List.length_append, List.length_take, List.length_cons, List.length_drop]; omega
+  | setI i v =>
+    simp only [DqOp.apply] at h
+    cases hn : normIdx i l.length with
+    | none => simp [hn] at h
+    | some k => simp only [hn, Option.map_some, Option.some.injEq] at h; subst h; simpa using hl
+  | delI i =>
+    simp only [DqOp.apply] at h
+    cases hn : normIdx i l.length with
+    | none => simp [hn] at h
+    | some k =>
+      simp only [hn, Option.map_some, Option.some.injEq] at h; subst h
+      rw [List.length_eraseIdx]; split <;> omega
+  | insertI i v =>
+    simp only [DqOp.apply] at h
+    split at h
+    · simp at h
+    · simp only [Option.some.injEq] at h; subst h
+      simp only [List.length_append, List.length_take, List.length_cons, List.length_drop]; omega
 
 theorem applyOps_length_le (size : Nat) (ops : List (DqOp α)) : ∀ l : List α, l.length ≤ size →
     (applyOps size ops l).length ≤ size := by
